@@ -8,6 +8,7 @@ import (
 	"io/fs"
 	"os"
 	"path/filepath"
+	"strings"
 	"syscall"
 
 	"github.com/oklog/ulid/v2"
@@ -76,7 +77,47 @@ func (bs *filesystemPartStore) Start(ctx context.Context) error {
 	if err := bs.ValidatedLifecycle.Start(ctx); err != nil {
 		return err
 	}
-	return bs.ensureRootDir()
+	if err := bs.ensureRootDir(); err != nil {
+		return err
+	}
+	return bs.recoverInterruptedTransactions()
+}
+
+// recoverInterruptedTransactions repairs what a process crash can leave behind
+// between a transactional rename and the end of its database transaction.
+// A part that only exists as "<part>.txbackup.<id>" is renamed back: if the
+// transaction never committed the part is still referenced and must stay
+// readable, and if it did commit the restored file is unreferenced and garbage
+// collection removes it. Temporary upload files belong to no transaction any
+// more and are deleted.
+func (bs *filesystemPartStore) recoverInterruptedTransactions() error {
+	dirEntries, err := os.ReadDir(bs.root)
+	if err != nil {
+		return err
+	}
+	for _, dirEntry := range dirEntries {
+		if dirEntry.IsDir() {
+			continue
+		}
+		name := dirEntry.Name()
+		if strings.HasPrefix(name, ".") && strings.HasSuffix(name, ".tmp") {
+			_ = os.Remove(filepath.Join(bs.root, name))
+			continue
+		}
+		partFilename, _, isBackup := strings.Cut(name, ".txbackup.")
+		if !isBackup {
+			continue
+		}
+		if _, ok := bs.tryGetPartIdFromFilename(partFilename); !ok {
+			continue
+		}
+		if _, err := os.Stat(filepath.Join(bs.root, partFilename)); errors.Is(err, fs.ErrNotExist) {
+			if err := os.Rename(filepath.Join(bs.root, name), filepath.Join(bs.root, partFilename)); err != nil {
+				return err
+			}
+		}
+	}
+	return nil
 }
 
 func (bs *filesystemPartStore) PutPart(ctx context.Context, tx database.Tx, partId partstore.PartId, reader io.Reader) error {
